@@ -116,7 +116,18 @@ def run_row(row):
     logging.getLogger('openhtf').addHandler(sh)
     pe.PhaseExecutorThread._thread_finished = slow_finished
     try:
-      t.execute()
+      if row.get('prof'):
+        # per-phase profiling on: collecting the statistics of a phase must not tie the executor to a thread it
+        # has given up on
+        import os, tempfile
+        fd, pf = tempfile.mkstemp(prefix='vf-c12-prof-')
+        os.close(fd)
+        try:
+          t.execute(profile_filename=pf)
+        finally:
+          os.unlink(pf)
+      else:
+        t.execute()
     finally:
       pe.PhaseExecutorThread._thread_finished = orig_fin
       logging.getLogger('openhtf').removeHandler(sh)
@@ -381,6 +392,8 @@ def main(chk):
   res = tlc.must_pass(tlc.run('PhaseTimeout', 'PhaseTimeout_mc.cfg', workers=2), 'PhaseTimeout design check')
   chk.add_tlc('PhaseTimeout', res)
   rows = [r[0] for r in res.prints('ROW')]
+  # the timed-out rows once more with per-phase profiling enabled
+  rows += [dict(r, prof=1) for r in rows if r['outcome'] == 'TIMEOUT']
   k = tlc.must_pass(tlc.run('KillableThread', 'KillableThread_mc.cfg', workers=2, coverage=True), 'KillableThread design check')
   chk.add_tlc('KillableThread (safety + termination)', k)
   neg = tlc.run('KillableThread', 'KillableThread_window.cfg', workers=2)
